@@ -12,16 +12,17 @@ HEAD=$(git -C /repo rev-parse HEAD)
 if [ ! -d "$WT" ]; then git -C /repo worktree add --detach "$WT" HEAD -q >>"$LOG" 2>&1; fi
 git -C "$WT" checkout -q -- . ; git -C "$WT" clean -fdq; git -C "$WT" checkout -q --detach "$HEAD"
 cp "$D/demo.rs" "$WT/tests/seeded_demo.rs"
+FEAT=""; grep -q 'feature = "verif_hooks"' "$D/demo.rs" && FEAT="--features verif_hooks"
 cd "$WT"
 echo "== demo on unchanged tree ($HEAD)" >>"$LOG"
-cargo test --offline --test seeded_demo >>"$LOG" 2>&1; clean_rc=$?
+cargo test --offline $FEAT --test seeded_demo >>"$LOG" 2>&1; clean_rc=$?
 applies=0
 git apply --check "$D/patch.diff" >>"$LOG" 2>&1 && applies=1
 demo_rc=-1; suite_rc=-1; summary=""
 if [ $applies = 1 ]; then
   git apply "$D/patch.diff"
   echo "== demo with the change" >>"$LOG"
-  cargo test --offline --test seeded_demo >>"$LOG" 2>&1; demo_rc=$?
+  cargo test --offline $FEAT --test seeded_demo >>"$LOG" 2>&1; demo_rc=$?
   rm -f tests/seeded_demo.rs
   echo "== existing suite with the change" >>"$LOG"
   cargo nextest run --workspace --no-fail-fast --retries 2 --test-threads 8 --offline -E 'not test(test_full_split_execution)' >"$D/suite.log" 2>&1; suite_rc=$?
